@@ -514,6 +514,10 @@ def directed_c01():
     D.append(("empty_default_clause", [("switch", None, "a & 1", [("0", [Y("a + 1")])], []), Y("b + 2")]))
     D.append(("else_block_starts_with_trivial_if", [("if", "g1", [Y("a + 1")], [("if", "g2", [E(1)], None), Y("b + 2"), E(2)]), Y("a + 3")]))
     D.append(("else_block_trivial_if_in_loop", [("for", ("decl", "i", "0"), "i < n", ("inc", "i"), [("if", "i&1 == 0", [Y("i + 1")], [("if", "g2", [E(1)], None), E(2), Y("i + 2"), E(3)]), E(4)]), Y("a + 3")]))
+    # an else-less if whose body is one else-less if with an initialiser: the initialiser runs only when the outer condition holds
+    D.append(("nested_if_inner_init_effect", [E(1), ("raw", "if g1 {\n\tif x := rt.Eff(772, a); x&1 == 0 {\n\t\tYield(x + 1)\n\t}\n}"), Y("b + 2")]))
+    D.append(("nested_if_inner_init_assign_in_loop", [("decl", "x", "b"), ("for", ("decl", "i", "0"), "i < n", ("inc", "i"), [("raw", "if (i + a)&1 == 0 {\n\tif x = rt.Eff(773, x + i); g2 {\n\t\tYield(x + 3)\n\t}\n}"), E(2)]), Y("x + 4")]))
+    D.append(("nested_if_outer_init_inner_plain", [("raw", "if x := rt.Eff(774, a); x&1 == 0 {\n\tif g1 {\n\t\tYield(x + 5)\n\t\trt.Emit(rt.EFF, 775)\n\t}\n}"), Y("b + 6")]))
     D.append(("yielding_switch_ends_loop", [("for", ("decl", "i", "0"), "i < n", ("inc", "i"), [("switch", None, "i&1", [("0", [Y("i + 1")])], None)]), Y("a + 2")]))
     return D
 
@@ -902,6 +906,9 @@ def directed_c05():
     D.append(("switch_clause_ends_in_if_else_break_behind_delegation_no_loop", [("switch", None, "a & 1", [("0", [("eff", 766), ("if", "g1", [YF("H2(a)"), ("if", "g2", [("break",)], None), Y("a + 1")], [Y("b")])])], None), Y("b + 99")]))
     D.append(("breakable_switch_last_in_if_body_delegation", [("if", "g1", [("switch", None, "a & 1", [("0", [YF("H2(a)"), ("if", "g2", [("break",)], None), Y("a + 2")])], None)], None), YF("H2(b)"), Y("b + 3")]))
     D.append(("closure_in_native_loop_then_continue_before_delegation", [("decl", "t", "0"), ("for", ("decl", "i", "0"), "i < n + 1", ("inc", "i"), [("raw", "f := func() int { return i + a }"), ("if", "f()&1 == 0", [("continue",)], None), ("assign", "t", "t + f()")]), YF("H2(t)"), Y("b")]))
+    # a break behind a delegation inside a type-switch clause leaves the type switch only
+    D.append(("tswitch_break_behind_delegation_in_loop", [("raw", "var t any = a\nif g3 {\n\tt = \"s\"\n}"), ("for", ("decl", "i", "0"), "i < n + 1", ("inc", "i"), [("tswitch", None, "t", [("int", [YF("H2(i)"), ("if", "g1", [("break",)], None), Y("i + 767")])], [YF("H1(i)"), ("if", "g2", [("break",)], None), ("eff", 768)]), Y("i + 1")]), YF("H2(b)"), Y("a")]))
+    D.append(("tswitch_bound_break_behind_delegation_no_loop", [("raw", "var t any = a\nif g3 {\n\tt = \"s\"\n}"), ("tswitch", "tv", "t", [("int", [YF("H2(tv)"), ("if", "g1", [("break",)], None), Y("tv + 769")])], [("raw", "_ = tv"), Y("b + 770"), ("if", "g2", [("break",)], None), YF("H1(b)")]), YF("H2(b)"), Y("b + 771")]))
     D.append(("same_iter_twice", [("raw", "it := H1(a)"), YF("it"), YF("it"), Y("b")]))
     return D
 
